@@ -2,7 +2,7 @@ import TaskModel.Sched.TraceLemmas
 /-! Deduplicated tasks (`run: once` / `when_changed`): a waiter that has been woken holds the
 result of the registered execution, and that execution has finished (model of the repaired
 `startExecution`). -/
-namespace TaskModel.Sched
+namespace TaskModel.Sched.S2
 
 theorem execs_bumpCalls (P : Program) (c : Config) (t : Nat) : (bumpCalls P c t).execs = c.execs := by
   unfold bumpCalls; split
@@ -179,4 +179,4 @@ theorem WInv_sound (P : Program) (F : Flags) (n : Nat) (tr : List Label) (c : Co
   · intro a x hx
     simp [init, Config.act?] at hx
 
-end TaskModel.Sched
+end TaskModel.Sched.S2
